@@ -2,6 +2,55 @@
 #define VG_CB_MAX 4
 #include "vg_decoder.h"
 #include "vg_ring.h"
+#ifdef VG_FUNC
+#include "lib/lha_decoder.h"
+/* ghost input bytes (same 48-byte window as the bit reader units), byte-oriented callback */
+#define VG_IN_MAX 48
+#define VG_POS_MAX 24
+uint8_t vg_in[VG_IN_MAX];
+size_t  vg_in_pos;
+_Bool   vg_eof;      /* the callback returned 0: end of input */
+_Bool   vg_short;    /* the callback returned 0 < n < requested: truncated inside a command (outside "well-formed") */
+size_t  vg_p0run;    /* ghost: input position of the flag byte of the current run */
+/* ASSUME: LHADecoderCallback contract, functional form for byte reads of 1 or 2 bytes: returns n <= buf_len,
+   copies the next n input bytes, advances the input. */
+size_t vg_cbb(void *buf, size_t buf_len, void *user_data)
+{
+	size_t n = nondet_size_t();
+	uint8_t *p = (uint8_t *) buf;
+	__CPROVER_assume(n <= buf_len);
+	__CPROVER_assert(buf_len <= 2, "lz5 asks its callback for 1 or 2 bytes");
+	if (n > 0) p[0] = vg_in[vg_in_pos];
+	if (n > 1) p[1] = vg_in[vg_in_pos + 1];
+	if (n == 0 && buf_len > 0) vg_eof = 1;
+	if (n > 0 && n < buf_len) vg_short = 1;
+	vg_in_pos += n;
+	return n;
+}
+size_t (*const vg_cbb_ptr)(void *, size_t, void *) = vg_cbb;
+
+/* -lz5- run format (property C03): flag byte BM at P0; command k (k = 0..7, LSB first) starts at input position
+   CPOS(k) = P0 + 1 + sum_{j<k} (bit j set ? 1 : 2); literal: that byte; copy: 12-bit absolute ring position
+   = byte0 | (byte1 & 0xF0) << 4, length = (byte1 & 0x0F) + 3. */
+#define LZ5_BIT(BM, j)       ((((unsigned) (BM)) >> (j)) & 1u)
+#define LZ5_ONES_BELOW(BM, k) ((size_t) ((0 < (k) ? LZ5_BIT(BM, 0) : 0) + (1 < (k) ? LZ5_BIT(BM, 1) : 0) + (2 < (k) ? LZ5_BIT(BM, 2) : 0) + \
+                               (3 < (k) ? LZ5_BIT(BM, 3) : 0) + (4 < (k) ? LZ5_BIT(BM, 4) : 0) + (5 < (k) ? LZ5_BIT(BM, 5) : 0) + \
+                               (6 < (k) ? LZ5_BIT(BM, 6) : 0) + (7 < (k) ? LZ5_BIT(BM, 7) : 0)))
+#define LZ5_CPOS(P0, BM, k)  ((P0) + 1 + 2 * (size_t) (k) - LZ5_ONES_BELOW(BM, k))
+#define LZ5_CMD_OK(P0, BM, k) (LZ5_BIT(BM, k) \
+    ? (vg_log[k].kind == VG_LIT && vg_log[k].a == vg_in[LZ5_CPOS(P0, BM, k)] && vg_log[k].b == 1) \
+    : (vg_log[k].kind == VG_COPY && vg_log[k].a == ((unsigned) vg_in[LZ5_CPOS(P0, BM, k)] | (((unsigned) vg_in[LZ5_CPOS(P0, BM, k) + 1] & 0xf0u) << 4)) && \
+       vg_log[k].b == ((unsigned) vg_in[LZ5_CPOS(P0, BM, k) + 1] & 0x0fu) + 3u))
+/* Skolem command vg_C stands for every logged command */
+#define LZ5_LOG_OK(P0, BM, N)  (vg_C < (N) ==> LZ5_CMD_OK(P0, BM, vg_C))
+/* outputs are laid end to end: first at offset 0, each next one after the previous command's bytes */
+#define LZ5_OFFS_OK(N)       (((N) > 0 ==> vg_log[0].off == 0) && (vg_C + 1 < (N) ==> vg_log[vg_C + 1].off == vg_log[vg_C].off + vg_log[vg_C].b))
+#define LZ5_TOTAL(N)         ((N) == 0 ? (size_t) 0 : vg_log[(N) - 1].off + vg_log[(N) - 1].b)
+#define LZ5_RUN_POST_CMD(P0) (vg_short || vg_n == 0 || (vg_n <= 8 && LZ5_LOG_OK(P0, vg_in[P0], vg_n)))
+#define LZ5_RUN_POST_OFFSETS (vg_short || LZ5_OFFS_OK(vg_n))
+#define LZ5_RUN_POST_RESULT(r) (vg_short || ((r) == LZ5_TOTAL(vg_n) && (r) <= OUTPUT_BUFFER_SIZE))
+#define LZ5_RUN_POST_END(P0) (vg_short || vg_n == 8 || vg_eof)
+#endif
 /* the fixed LArc initial ring contents, from the format description (13-byte runs of every value,
    ascending bytes, descending bytes, 128 zeros, 110 spaces, 18 zeros) */
 #define VG_LZ5_PAT(k) ((uint8_t)((k) < 3328 ? (k) / 13 : (k) < 3584 ? (k) - 3328 : (k) < 3840 ? 255 - ((k) - 3584) : \
@@ -16,6 +65,13 @@ static unsigned vg_n0;
 
 static void vg_havoc(void)
 {
+#ifdef VG_FUNC
+	__CPROVER_havoc_object(vg_in);
+	vg_in_pos = nondet_size_t();
+	vg_eof = 0; vg_short = 0; vg_depth = 0;
+	vg_C = nondet_size_t();
+	__CPROVER_assume(vg_C < 8);
+#endif
 	__CPROVER_havoc_object(&vg_dec);
 	__CPROVER_havoc_object(vg_out);
 	__CPROVER_havoc_object(vg_log);
